@@ -872,9 +872,73 @@ pub fn suite_rows_enum(ctx: &mut Ctx, suite: &str) {
             }
         }
     }
+    // the bidirectional shapes, likewise exhaustively: a bidirectional `B` alone, or together with an input literally called
+    // `B_out` (then the column `B_out` is that input's column AND the expected column of `B` — F11, F23) in both orders of
+    // the signal list; every header over {B, B_out} of one or two columns, an optional plain input, every row over {1,X,Z,C}
+    let sig_lists: [&[&str]; 3] = [
+        &["sig B 2 bidir 0"],
+        &["sig B_out 2 in 0", "sig B 2 bidir 0"],
+        &["sig B 2 bidir 0", "sig B_out 2 in 0"],
+    ];
+    let headers: [&[&str]; 6] = [&["B"], &["B_out"], &["B", "B_out"], &["B_out", "B"], &["A", "B_out"], &["B_out", "A", "B"]];
+    let mut shared_total: u64 = 0;
+    for sl in sig_lists.iter() {
+        for hdr in headers.iter() {
+            let k = hdr.len();
+            for code in 0..(4u32.pow(k as u32)) {
+                idx += 1;
+                let cs = case_seed(0, suite, idx);
+                if let Some(c) = ctx.only_case {
+                    if c != cs {
+                        continue;
+                    }
+                } else if idx % ctx.parts != ctx.part {
+                    continue;
+                }
+                if ctx.too_many() {
+                    return;
+                }
+                let mut text = String::new();
+                for l in sl.iter() {
+                    text.push_str(l);
+                    text.push('\n');
+                }
+                if hdr.contains(&"A") {
+                    text.push_str("sig A 1 in 0\n");
+                }
+                text.push_str("src-begin\n");
+                text.push_str(&hdr.join(" "));
+                text.push('\n');
+                let mut row = vec![];
+                let mut c = code;
+                for _ in 0..k {
+                    row.push(atoms[(c % 4) as usize]);
+                    c /= 4;
+                }
+                for _ in 0..2 {
+                    text.push_str(&row.join(" "));
+                    text.push('\n');
+                }
+                text.push_str("src-end\n");
+                let cc = match crate::corpus::parse_case(&format!("rows-enum-bidir-{idx}"), &text) {
+                    Ok(c) => c,
+                    Err(e) => {
+                        ctx.report.notes.push(format!("rows-enum: {e}"));
+                        continue;
+                    }
+                };
+                shared_total += 1;
+                ctx.report.bump("rows-enum-bidirectional");
+                judge_run_case(ctx, suite, cs, &cc.case, &cc.src, None);
+            }
+        }
+    }
     ctx.report.exhaustive.push(format!(
         "exhaustive: every header of 1..=3 columns x every input/output assignment x every signal-list order x every row over {{1,X,Z,C}} (twice in a row); this process: {total} cases, part {} of {}",
         ctx.part, ctx.parts
+    ));
+    ctx.report.exhaustive.push(format!(
+        "exhaustive: a bidirectional signal alone or with an input called <name>_out (shared column) in both signal-list orders x six headers over its two columns x every row over {{1,X,Z,C}} (twice in a row); this process: {shared_total} cases"
     ));
 }
 
